@@ -19,7 +19,8 @@ RULE = ('Direct calls of the long/short sizer on a real broker: 1-6 assets, sign
         'alloc=E*L*w/sum|w| and after=alloc-f*|alloc|: q is an int, q==0 or sign(q)==sign(w), |q|*p <= |after| '
         'and (|q|+1)*p > |after|-1, sum|q|*p <= L*E*(1+f) (1e-12 relative slack). Plus an exhaustive small grid. '
         'Non-trivial = both signs present, fee>0 and a short leg whose |after|/p has a fractional part, or a '
-        'rejected invalid input.')
+        'rejected invalid input.'
+        ' Round-4/5 reach: as C10 (fee model replaced, cash withdrawn, gross_leverage re-set on the live sizer, both sizing keywords through QuantTradingSystem, exact clause with exact multiples, csv part with row order / missing cells / spread / late first source).')
 ASSUMPTIONS = [
     'fee rates with commission + tax <= 1',
     'gross weight either <= 1e-9 (left unscaled by the code; only sign and total bound asserted) or >= 5e-5',
@@ -40,7 +41,8 @@ def run_case(case):
         try:
             if case.get('via_qts'):
                 q.QuantTradingSystem(q.StaticUniverse(sorted(weights)), b, 'p', dh, None, long_only=False,
-                                     gross_leverage=lev, submit_orders=False)
+                                     gross_leverage=lev, submit_orders=False,
+                                   **({'cash_buffer_percentage': 0.05} if case.get('both_kwargs') else {}))
             else:
                 q.LongShortLeveragedOrderSizer(b, 'p', dh, gross_leverage=lev)
         except ValueError:
@@ -51,7 +53,8 @@ def run_case(case):
         lev = 1.0
     elif case.get('via_qts'):
         qts = q.QuantTradingSystem(q.StaticUniverse(sorted(weights)), b, 'p', dh, None, long_only=False,
-                                   gross_leverage=lev, submit_orders=False)
+                                   gross_leverage=lev, submit_orders=False,
+                                   **({'cash_buffer_percentage': 0.05} if case.get('both_kwargs') else {}))
         sizer = qts.portfolio_construction_model.order_sizer
         if not isinstance(sizer, q.LongShortLeveragedOrderSizer):
             raise Violation('long/short trading system built a %s' % type(sizer).__name__)
@@ -82,6 +85,11 @@ def run_case(case):
             b.fee_model = kit.fee_model(case['swap_fee'] or None)
             fee_now = case['swap_fee'] or None
             all_cls.append('fee_model_replaced')
+        if call_no and case.get('new_leverage') is not None:
+            # the sizer's public gross_leverage attribute is re-set on the live object: later calls follow it
+            sizer.gross_leverage = case['new_leverage']
+            lev = case['new_leverage']
+            all_cls.append('leverage_changed_on_live_sizer')
         E = F(b.get_portfolio_total_equity('p'))
         out = sizer(kit.T_OPEN, dict(weights))
         if set(out.keys()) != set(weights.keys()):
@@ -155,6 +163,8 @@ def run_case(case):
             cls.append('default_leverage')
         if case.get('via_qts') and case['leverage'] != 'default':
             cls.append('built_by_trading_system')
+            if case.get('both_kwargs'):
+                cls.append('trading_system_given_both_sizing_keywords')
         if f > 0:
             cls.append('fee_positive')
         if any(abs(out[a]['quantity']) == 1 for a in out):
@@ -220,6 +230,7 @@ def cases(draw):
             sub = assets if draw(st.booleans()) else draw(st.lists(st.sampled_from(assets), min_size=1, unique=True))
             case['more_weights'].append({a: _sweight(draw) for a in sub})
     case['via_qts'] = draw(st.sampled_from([False, False, True]))
+    case['both_kwargs'] = draw(st.booleans())      # a shared configuration carrying both sizing keywords
     inv = draw(st.sampled_from([None] * 12 + ['leverage', 'nan_price']))
     if inv == 'leverage':
         case['leverage'] = draw(st.sampled_from([0.0, -0.0, -1e-9, -0.5, -1.0, -20.0]))
@@ -237,6 +248,7 @@ def cases(draw):
         case.pop('hold_price', None)
     case['move_cash'] = draw(st.booleans())
     case['swap_fee'] = draw(st.sampled_from([None, None, [0.01, 0.005], [0.0, 0.0]]))
+    case['new_leverage'] = draw(st.sampled_from([None, None, None, 0.25, 3.0, 1.0]))
     if inv:
         case['invalid'] = inv
         case.pop('more_weights', None)
